@@ -31,6 +31,10 @@ void ezc3d::ParametersNS::GroupNS::Group::print() const
 
 void ezc3d::ParametersNS::GroupNS::Group::write(std::fstream &f, int groupIdx, std::streampos &dataStartPosition) const
 {
+    // The lengths are stored on one byte (the sign of the length of the name being the lock flag)
+    if (name().size() > 127 || description().size() > 255 || groupIdx < -127)
+        throw std::range_error("Group " + name() + " cannot be written: the name is limited to 127 characters, "
+                               "the description to 255 characters and the number of groups to 127");
     int nCharName(static_cast<int>(name().size()));
     if (isLocked())
         nCharName *= -1;
